@@ -677,7 +677,8 @@ Proof.
       assert (Em : PyMini.eval call_ref prim s2
                      (XPrim "builtins.min" [XAttr (XName "query") "limit"; XConst (PInt 9223372036854775807)]) =
                    Ok (s2, PInt (Z.min n sys_maxsize))).
-      { rewrite (eval_prim2 call_ref prim "builtins.min" _ _ s2 s2 s2 (PInt n) (PInt 9223372036854775807) Ea eq_refl).
+      { rewrite (eval_prim2 call_ref prim "builtins.min" _ _ s2 s2 s2 (PInt n) (PInt 9223372036854775807) Ea
+                   (eq_refl : PyMini.eval call_ref prim s2 (XConst (PInt 9223372036854775807)) = Ok (s2, PInt 9223372036854775807))).
         rewrite prim_min. reflexivity. }
       rewrite (exec_assign call_ref prim _ _ s2 s2 (PList (map row_pv L))).
       + reflexivity.
@@ -729,6 +730,190 @@ Proof.
   - rewrite U1 by discriminate. reflexivity.
   - rewrite U1 by discriminate. reflexivity.
   - rewrite U1 by discriminate. reflexivity.
-  - rewrite E2. reflexivity.
+  - rewrite E2. cbn [bind]. unfold post, rows1. destruct spec, distinct; reflexivity.
 Qed.
 End Tail.
+
+(* ------------------------------------------------------------------ the non-aggregate row loop of execute_select *)
+From Verif Require Import Model.Exec.
+
+Definition is_err (v : value) : bool := match v with VErr _ => true | _ => false end.
+
+Section RowLoop.
+Variable call_ref : nat -> list pv -> pv.
+Variable prim : string -> list pv -> res pv.
+Variable ctx_of : row -> pv.           (* the context object the table yields for a row *)
+Notation mev := Verif.Model.Eval.eval.
+
+(* reference k behaves as compiled expression a on row r (children and conditions are opaque callables, as in
+   Proofs/SrcEval.v); its value is not an exception (C04: well-typed queries) *)
+Definition child_on (r : row) (k : nat) (a : enode) : Prop :=
+  call_ref k [ctx_of r] = PV (mev r [] a) /\ is_err (mev r [] a) = false.
+
+Definition where_ref (q : query) (table : list row) (cw : pv) : Prop :=
+  match q_where q with
+  | None => cw = PNone
+  | Some w => exists k, cw = PRef k /\ forall r, In r table -> child_on r k w
+  end.
+
+Lemma do_call_child r k a : child_on r k a -> do_call call_ref (PRef k) [ctx_of r] = Ok (PV (mev r [] a)).
+Proof. intros [H E]. cbn [do_call]. rewrite H. destruct (mev r [] a); try reflexivity; discriminate. Qed.
+
+Definition row_body : list stmt :=
+  [SIf (XBoolOp false [XCompare (XName "c_where") [(CIs, XConst PNone)]; XCall (XName "c_where") [XName "context"] None])
+     [SAssign (TName "values")
+        (XListComp (XCall (XName "c_expr") [XName "context"] None) "c_expr" (XName "c_target_exprs") None);
+      SExpr (XMethod (TName "rows") "append" [XName "values"])] []].
+
+Lemma targets_comp : forall r ks (ts : list enode) loc flds,
+  Forall2 (child_on r) ks ts -> lookup "context" loc = Some (ctx_of r) ->
+  map_res (fun v => bind (PyMini.eval call_ref prim (write {| locals := loc; fields := flds |} (TName "c_expr") v)
+                            (XCall (XName "c_expr") [XName "context"] None)) (fun p => Ok (snd p)))
+          (map PRef ks) = Ok (map PV (map (mev r []) ts)).
+Proof.
+  intros r ks ts loc flds Hc Hctx. induction Hc as [|k a ks ts Hk Hcs IH]; [reflexivity|].
+  cbn [map map_res].
+  assert (E : bind (PyMini.eval call_ref prim (write {| locals := loc; fields := flds |} (TName "c_expr") (PRef k))
+                      (XCall (XName "c_expr") [XName "context"] None)) (fun p => Ok (snd p)) = Ok (PV (mev r [] a))).
+  { repeat (progress (cbn [PyMini.eval read write locals fields bind];
+                      rewrite ?lookup_update_eq, ?(lookup_update_neq "context" "c_expr") by reflexivity;
+                      rewrite ?Hctx)).
+    rewrite (do_call_child r k a Hk). reflexivity. }
+  rewrite E. cbn [bind]. rewrite IH. reflexivity.
+Qed.
+
+Lemma row_loop : forall (q : query) (ks : list nat) (cw : pv) (table : list row) (acc : list row) loc flds,
+  where_ref q table cw ->
+  (forall r, In r table -> Forall2 (child_on r) ks (q_targets q)) ->
+  lookup "c_where" loc = Some cw -> lookup "c_target_exprs" loc = Some (PList (map PRef ks)) ->
+  lookup "rows" loc = Some (PList (map rowl_pv acc)) ->
+  exists loc',
+    for_loop call_ref prim row_body "context" {| locals := loc; fields := flds |} (map ctx_of table) =
+      Ok (Next {| locals := loc'; fields := flds |}) /\
+    lookup "rows" loc' = Some (PList (map rowl_pv (scan_nonagg q acc table))).
+Proof.
+  intros q ks cw. induction table as [|r t IH]; intros acc loc flds Hw Hts Hcw Hte Hrows.
+  - exists loc. split; [reflexivity|exact Hrows].
+  - cbn [map for_loop scan_nonagg]. cbn [write locals fields].
+    set (loc1 := update "context" (ctx_of r) loc). set (s1 := {| locals := loc1; fields := flds |}).
+    assert (Hc1 : lookup "context" loc1 = Some (ctx_of r)) by apply lookup_update_eq.
+    assert (Hcw1 : lookup "c_where" loc1 = Some cw) by (unfold loc1; rewrite lookup_update_neq by reflexivity; exact Hcw).
+    assert (Hte1 : lookup "c_target_exprs" loc1 = Some (PList (map PRef ks)))
+      by (unfold loc1; rewrite lookup_update_neq by reflexivity; exact Hte).
+    assert (Hr1 : lookup "rows" loc1 = Some (PList (map rowl_pv acc)))
+      by (unfold loc1; rewrite lookup_update_neq by reflexivity; exact Hrows).
+    assert (Hw' : where_ref q t cw).
+    { unfold where_ref in *. destruct (q_where q); [|exact Hw].
+      destruct Hw as [k [E H]]. exists k. split; [exact E|]. intros r' Hr'. apply H. right. exact Hr'. }
+    assert (Hts' : forall r', In r' t -> Forall2 (child_on r') ks (q_targets q)) by (intros r' Hr'; apply Hts; right; exact Hr').
+    (* the condition: c_where is None or c_where(context) *)
+    assert (Econd : exists cv, PyMini.eval call_ref prim s1
+              (XBoolOp false [XCompare (XName "c_where") [(CIs, XConst PNone)];
+                              XCall (XName "c_where") [XName "context"] None]) = Ok (s1, cv) /\
+              pv_truthy cv = Ok (passes q r)).
+    { unfold where_ref in Hw. unfold passes. destruct (q_where q) as [w|].
+      - destruct Hw as [k [-> H]]. pose proof (H r (or_introl eq_refl)) as Hk.
+        exists (PV (mev r [] w)). split.
+        + unfold s1. repeat (progress (cbn [PyMini.eval bind read locals fields compare1 pv_is_none PNone pv_truthy PBool
+                                            truthy Bool.eqb]; rewrite ?Hcw1, ?Hc1)).
+          rewrite (do_call_child r k w Hk). reflexivity.
+        + destruct Hk as [_ He]. destruct (mev r [] w); try reflexivity; discriminate.
+      - subst cw. exists (PBool true). split; [|reflexivity].
+        unfold s1. repeat (progress (cbn [PyMini.eval bind read locals fields compare1 pv_is_none PNone pv_truthy PBool
+                                          truthy Bool.eqb]; rewrite ?Hcw1)). reflexivity. }
+    destruct Econd as [cv [Ec Et]].
+    unfold row_body at 1. rewrite exec_block_cons. fold s1.
+    rewrite (exec_if call_ref prim _ _ _ s1 s1 cv (passes q r) Ec Et).
+    destruct (passes q r).
+    + rewrite exec_block_cons.
+      assert (Ev : PyMini.eval call_ref prim s1
+                (XListComp (XCall (XName "c_expr") [XName "context"] None) "c_expr" (XName "c_target_exprs") None) =
+              Ok (s1, rowl_pv (map (mev r []) (q_targets q)))).
+      { rewrite (eval_listcomp call_ref prim _ _ _ s1 s1 _ (eval_name call_ref prim s1 "c_target_exprs" _ Hte1)).
+        unfold s1. rewrite (targets_comp r ks (q_targets q) loc1 flds (Hts r (or_introl eq_refl)) Hc1). reflexivity. }
+      rewrite (exec_assign call_ref prim _ _ _ _ _ Ev). cbn [bind]. unfold s1. cbn [write locals fields].
+      set (vals := map (mev r []) (q_targets q)).
+      set (loc2 := update "values" (rowl_pv vals) loc1).
+      assert (Hv2 : lookup "values" loc2 = Some (rowl_pv vals)) by apply lookup_update_eq.
+      assert (Hr2 : lookup "rows" loc2 = Some (PList (map rowl_pv acc)))
+        by (unfold loc2; rewrite lookup_update_neq by reflexivity; exact Hr1).
+      rewrite exec_block_cons.
+      repeat (progress (cbn [PyMini.exec PyMini.eval bind read write locals fields method_call
+                             String.eqb Ascii.eqb Bool.eqb exec_block]; rewrite ?Hv2, ?Hr2)).
+      apply (IH (acc ++ [vals])); try assumption.
+      * unfold loc2, loc1. rewrite !lookup_update_neq by reflexivity. exact Hcw.
+      * unfold loc2, loc1. rewrite !lookup_update_neq by reflexivity. exact Hte.
+      * rewrite lookup_update_eq, map_app. reflexivity.
+    + cbn [exec_block bind]. apply (IH acc); assumption.
+Qed.
+
+(* (iii) the translated non-aggregate loop appends, for every row that passes c_where, the list of target values:
+   Exec.scan_nonagg *)
+Theorem row_loop_src : forall (q : query) (ks : list nat) (cw qobj : pv) (table acc : list row),
+  qobj <> PSelf -> prim "attr:table" [qobj] = Ok (PList (map ctx_of table)) ->
+  where_ref q table cw ->
+  (forall r, In r table -> Forall2 (child_on r) ks (q_targets q)) ->
+  exists s',
+    exec_block call_ref prim
+      {| locals := [("query", qobj); ("c_where", cw); ("c_target_exprs", PList (map PRef ks));
+                    ("rows", PList (map rowl_pv acc))]; fields := [] |} (f_body exec_row_loop) = Ok (Next s') /\
+    lookup "rows" (locals s') = Some (PList (map rowl_pv (scan_nonagg q acc table))).
+Proof.
+  intros q ks cw qobj table acc Hq Htab Hw Hts. unfold exec_row_loop. cbn [f_body]. fold row_body.
+  set (s0 := {| locals := [("query", qobj); ("c_where", cw); ("c_target_exprs", PList (map PRef ks));
+                           ("rows", PList (map rowl_pv acc))]; fields := [] |}).
+  rewrite exec_block_cons.
+  rewrite (exec_for call_ref prim "context" _ _ s0 s0 (map ctx_of table)).
+  2:{ rewrite (eval_attr call_ref prim (XName "query") "table" s0 s0 qobj
+                 (eval_name call_ref prim s0 "query" qobj eq_refl) Hq). cbn [String.append]. rewrite Htab. reflexivity. }
+  destruct (row_loop q ks cw table acc (locals s0) [] Hw Hts eq_refl eq_refl eq_refl) as [loc' [E R]].
+  unfold s0 in *. cbn [locals] in E. rewrite E. cbn [bind exec_block].
+  eexists. split; [reflexivity|exact R].
+Qed.
+End RowLoop.
+
+(* ------------------------------------------------------------------ corollaries and satisfiability of the hypotheses *)
+(* the translated tail computes ONE stable sort by the directed lexicographic key order, then projection, DISTINCT,
+   LIMIT (C03_pipeline applied to what the source says) *)
+Corollary order_tail_lex_src : forall call_ref,
+  (forall args, call_ref 1%nat args = partial_clo 1 args) ->
+  (forall l, call_ref 2%nat [PList l] =
+             res_pv (call_fun call_ref (prims_exec call_ref exec_nig_single exec_nig_multi 1) exec_uniquify [PList l])) ->
+  forall (sp : list (nat * bool)) (vis : list nat) (distinct : bool) (lim : option Z) (rows : list row) (tbl rt : pv),
+  (forall r, In r rows -> forall i, In i vis \/ In i (map fst sp) -> (i < length r)%nat) ->
+  (forall n, lim = Some n -> 0 <= n) ->
+  call_fun call_ref (prims_exec call_ref exec_nig_single exec_nig_multi 1) exec_order_tail
+    [spec_pv (Some sp); PList (map rowl_pv rows); PList (map idx_pv vis); query_obj tbl (PBool distinct) (lim_pv lim); rt] =
+  Ok (PTuple [rt; PList (map row_pv
+        (limit (clip_limit lim) ((if distinct then uniquify else fun l => l)
+                                   (map (project vis) (isort (spec_le sp) rows)))))]).
+Proof.
+  intros call_ref Hnig Huniq sp vis distinct lim rows tbl rt Hin Hlim.
+  rewrite (order_tail_src call_ref Hnig Huniq (Some sp) vis distinct lim rows tbl rt Hin Hlim).
+  rewrite post_pipeline. reflexivity.
+Qed.
+
+(* a concrete linking of the opaque callables that satisfies the hypotheses of order_tail_src *)
+Definition demo_ref : nat -> list pv -> pv :=
+  fun k args =>
+    match k with
+    | 1%nat => partial_clo 1 args
+    | 2%nat => match args with [PList l] => PList (uniq_pv [] l) | _ => PNone end
+    | _ => PNone
+    end.
+
+Lemma demo_ref_linked :
+  (forall args, demo_ref 1%nat args = partial_clo 1 args) /\
+  (forall l, demo_ref 2%nat [PList l] =
+             res_pv (call_fun demo_ref (prims_exec demo_ref exec_nig_single exec_nig_multi 1) exec_uniquify [PList l])).
+Proof.
+  split; [reflexivity|]. intros l.
+  rewrite (uniquify_src_pv demo_ref (prims_exec demo_ref exec_nig_single exec_nig_multi 1) eq_refl l). reflexivity.
+Qed.
+
+(* the clipped limit is the limit whenever LIMIT does not exceed sys.maxsize *)
+Lemma clip_limit_small lim : (forall n, lim = Some n -> n <= sys_maxsize) -> clip_limit lim = lim.
+Proof.
+  intros H. destruct lim as [n|]; [|reflexivity]. unfold clip_limit. cbn [option_map].
+  rewrite Z.min_l by (apply H; reflexivity). reflexivity.
+Qed.
